@@ -305,6 +305,24 @@ theorem encode_short (cl : List Pair) (mcc : Int) (chars : List Int) (h : chars.
   unfold encode
   exact replay_short cl _ _ (by simpa using h)
 
+/-! ### 'matrix' output: the count row is a multiset function of the encoding and additive -/
+
+/-- the count row depends only on the multiset of codes of the encoding -/
+theorem countRow_perm (cols : List Int) (e e' : List Int) (hp : e.Perm e') :
+    countRow cols e = countRow cols e' := by
+  unfold countRow
+  apply List.map_congr_left
+  intro c _
+  exact hp.count_eq c
+
+/-- and is additive: the row of a concatenated code sequence is the entrywise sum of the rows -/
+theorem countRow_append (cols : List Int) (e e' : List Int) :
+    countRow cols (e ++ e') = List.zipWith (· + ·) (countRow cols e) (countRow cols e') := by
+  apply List.ext_getElem
+  · simp [countRow]
+  · intro i h1 h2
+    simp [countRow, List.count_append]
+
 /-! ### Non-vacuity: `["abab", "a", ""]` with two merges (a=97, b=98). -/
 
 def exSelect : TrainSt → Option Pair := fun st =>
